@@ -8,6 +8,7 @@
     * parse_disk      — the on-disk parser branch maps every Exception to Errors.Syntax
     * parse_mem       — the same for in-memory modules: FALSE without except clauses (`parse_mem_counterexample`, the pinned
                         tree: `Generated.parserMemHandlers = []`), TRUE with the on-disk clauses (`parse_mem_fixed`, the proposed fix)
+    * load_normalised — Modules.load with the repaired except clauses ends ok / in Errors.Error / passes non-Exceptions through
     * loop            — an Interactive step keeps the loop alive for every outcome in {ok} ∪ Errors.Error (given the render succeeds)
     * render_total    — message and quotation builders are total exactly under the stated guards
 -/
@@ -181,6 +182,52 @@ example :
     (match loadEntry parserDiskHandlers false false (.error ⟨.user ['D'] [.user ['L'] [.atom (.bi .Exception)] true] true, .other⟩) with
       | .error y => y.cls.isA (.err .Syntax) | .ok _ => false) = true := by
   decide
+
+/-! ### Modules.load -/
+
+/-- With the except clauses of the repaired `Modules.load` (`except Errors.Error: raise` / `except Exception: raise Errors.Fatal`),
+    whatever the library load, the loader, the dependency loads, the preprocessors and even the rollback raise — any class —
+    `load` ends ok, or in the Errors.Error hierarchy, or with an exception that is not an `Exception` (those pass through). -/
+theorem load_normalised (rollback : List Atom) (recheck registered registeredAfterLibs : Bool) (libs load body unload : Except Exc Unit) :
+    match modulesLoadWith [⟨.err .Error, .reraise⟩, ⟨.bi .Exception, .wrap .Fatal .other⟩] rollback recheck registered registeredAfterLibs libs load body unload with
+    | .ok _ => True
+    | .error y => y.inHierarchy = true ∨ y.isException = false := by
+  have key : ∀ z : Exc, (propagate [⟨.err .Error, .reraise⟩, ⟨.bi .Exception, .wrap .Fatal .other⟩] z).inHierarchy = true ∨
+      (propagate [⟨.err .Error, .reraise⟩, ⟨.bi .Exception, .wrap .Fatal .other⟩] z).isException = false := by
+    intro z
+    simp only [propagate]
+    by_cases h1 : z.cls.isA (.err .Error) = true
+    · simp only [h1, if_true, runAction]; exact Or.inl h1
+    · simp only [h1]
+      by_cases h2 : z.cls.isA (.bi .Exception) = true
+      · simp only [h2, if_true, runAction]; exact Or.inl rfl
+      · simp only [h2]; exact Or.inr (by simpa [Exc.isException] using h2)
+  unfold modulesLoadWith
+  cases modulesLoadBody rollback recheck registered registeredAfterLibs libs load body unload with
+  | ok u => simp [tryWith]
+  | error z => simp only [tryWith]; exact key z
+
+/-- the current tree's tables are the ones of `load_normalised` exactly when the translator found the repaired shape -/
+example : (modulesLoadHandlers = [] ∨ modulesLoadHandlers = [⟨.err .Error, .reraise⟩, ⟨.bi .Exception, .wrap .Fatal .other⟩]) := by decide
+
+/-- non-vacuity: a KeyError from a preprocessor with a failing rollback (IndexError from unload) still ends as Errors.Fatal -/
+example :
+    (match modulesLoadWith [⟨.err .Error, .reraise⟩, ⟨.bi .Exception, .wrap .Fatal .other⟩] [.bi .Exception] true false false (.ok ()) (.ok ())
+        (.error (Exc.ofBuiltin .KeyError .other)) (.error (Exc.ofBuiltin .IndexError .other)) with
+      | .error y => y.cls.isA (.err .Fatal) | .ok _ => false) = true := by
+  decide
+
+/-- Without the clauses (the pinned tree) the raw exception escapes — what the fuzz keys `IndexError@…`, `ValueError@…` showed. -/
+theorem load_unnormalised_counterexample :
+    ¬ (∀ (body : Except Exc Unit), match modulesLoadWith [] [] false false false (.ok ()) (.ok ()) body (.ok ()) with
+      | .ok _ => True
+      | .error y => y.inHierarchy = true ∨ y.isException = false) := by
+  intro h
+  have := h (.error (Exc.ofBuiltin .IndexError .other))
+  have hc : modulesLoadWith [] [] false false false (.ok ()) (.ok ()) (.error (Exc.ofBuiltin .IndexError .other)) (.ok ())
+      = .error (Exc.ofBuiltin .IndexError .other) := rfl
+  rw [hc] at this
+  rcases this with h' | h' <;> exact absurd h' (by decide)
 
 /-! ### Interactive.run -/
 
